@@ -2,8 +2,8 @@
 # (a) every EDGE of the TLC state graph is one call of the real sparse-array helpers (hook H5);
 # (b) every EDGE is also one shell program `a=(<from>); OP; dump` run by interp and bash and
 #     compared with the dump the spec defines for the target state;
-# (c) seeded random walks over the emitted graph (length <= 20, dump after every step) in three
-#     contexts: top level, function with `local a`, subshell.
+# (c) seeded random walks over the emitted graph (length <= 20, dump after every step) in four
+#     contexts: top level, function with `local a`, subshell, parent then inheriting subshell.
 import json
 import vlib
 from props import c33_assoc
@@ -125,24 +125,31 @@ def run(ck):
     adj = {}
     for e in edges:
         adj.setdefault(repkey(e["from"]), []).append(e)
-    nwalks = 150 if ck.tier == "quick" else 3000
+    nwalks = 200 if ck.tier == "quick" else 4000
     init = repkey({"list": [], "ix": []})
     for w in range(nwalks):
-        ctxkind = w % 3
+        ctxkind = w % 4
         cur = init
-        body, exp = [], []
+        body, exp, keys_ = [], [], []
         for _ in range(ck.rng.randint(5, 20)):
             e = ck.rng.choice(adj[cur])
             body.append(render_op(e["act"], e["args"]) + "; d")
             cur = repkey(e["to"])
+            keys_.append(cur)
             exp.append(dump_expected(states[cur], maxidx))
         if ctxkind == 0:
             src = dump_fn(maxidx) + "\n".join(body) + "\n"
         elif ctxkind == 1:
             src = dump_fn(maxidx) + "a=(g g)\nf() {\nlocal a\n" + "\n".join(body) + "\n}\nf\nd\n"
             exp.append("<g><g>|<0><1>|2|g|g" + "|" * (maxidx - 1) + "|<g>|<g><g>|<g>|<g>|<>|<>|g\n")
+        elif ctxkind == 3:
+            # the first part of the walk in the parent, the rest in a subshell that inherits the array;
+            # afterwards the parent must still see the state at the split
+            k = ck.rng.randint(1, len(body) - 1)
+            src = dump_fn(maxidx) + "\n".join(body[:k]) + "\n(\n" + "\n".join(body[k:]) + "\n)\nd\n"
+            exp.append(dump_expected(states[keys_[k - 1]], maxidx))
         else:
-            src = dump_fn(maxidx) + "a=([1]=g)\n(\n" + "\n".join(body) + "\n)\nd\n"
+            src = dump_fn(maxidx) + "a=([1]=g)\n(\nunset a\n" + "\n".join(body) + "\n)\nd\n"   # the walk starts from the empty array
             exp.append("<g>|<1>|1||g" + "|" * (maxidx - 1) + "|<g>|<g>|<g>|<g>|<>|<>|g\n")
         progs.append({"kind": "prog", "src": src, "exp": "".join(exp), "maxidx": maxidx, "walk": True, "ctx": ctxkind})
     evaluate_progs(ck, progs, h)
